@@ -11,6 +11,12 @@
 // local flag of that call is named FL when it is constructed; `X flushret` waits for the call to return (it does once B has
 // stored the flag) and reports whether the sink writes of X's statements are ordered before the caller (wclk <= its clock).
 // script: init | X log | X stop | X flushcall | X flushret | Y log | Y exit | X join | B <ir> <iw> <iwy> | end   (1-based, 0 = latest)
+// Fine-grained mode (spec/NewCtxRA.tla): `policy <t>:<obj>:<load|store|rmw> ...` says at which named accesses which logical
+// thread parks (after init: 1:R:load); `Z1 start|log` / `Z2 start|log` are two more logging threads (logical 3, 4) created after
+// the baseline, so their first log call registers a thread context (log is posted, the thread parks inside it); `S <t> [idx]`
+// releases logical thread t from its park (idx = the message its load reads) until it parks again or its command completes;
+// `drain <n>` clears the policy, releases everybody and lets the backend run n more loop iterations.
+// F = ThreadContextManager::_new_thread_context_flag.
 #include <algorithm>
 #include <any>
 #include <array>
@@ -71,7 +77,7 @@
 #include <vector>
 
 #define SHIM_MT 1
-#define SHIM_NT 3
+#define SHIM_NT 5
 #include "shim_ra.h"
 
 #define atomic verif_atomic
@@ -116,25 +122,35 @@ struct CountSink : quill::Sink
   void flush_sink() override {}
 };
 
-// --- parking of the backend thread at the head of its loop
+// --- parking: by default the backend thread at the head of its loop; in general any logical thread at the accesses of `policy`
 static std::mutex s_mx;
 static std::condition_variable s_cv;
-static bool s_armed = false, s_parked = false, s_go = false, s_stop_done = false;
-static long s_wloads = 0, s_wyloads = 0;
+static bool s_armed = false, s_stop_done = false;
+static bool s_parked_at[shim::NT] = {}, s_go_t[shim::NT] = {};
+static std::string s_where[shim::NT];
+static std::set<std::string> s_policy;
+static long s_wloads = 0, s_wyloads = 0, s_rloads = 0;
+#define s_parked s_parked_at[1]
+#define s_go s_go_t[1]
 
-static void park(std::string const& nm, int t)
+static void park(std::string const& nm, int t, int kind)
 {
-  if (t != 1) return;
-  if (nm == "W") { ++s_wloads; return; }
-  if (nm == "WY") { ++s_wyloads; return; }
-  if (nm != "R") return;
+  if (t == 1 && kind == 0)
+  {
+    if (nm == "W") { ++s_wloads; return; }
+    if (nm == "WY") { ++s_wyloads; return; }
+  }
   std::unique_lock<std::mutex> l(s_mx);
+  if (t == 1 && kind == 0 && nm == "R") { ++s_rloads; s_cv.notify_all(); }
   if (!s_armed) return;
-  s_parked = true;
+  static char const* const kinds[] = {"load", "store", "rmw"};
+  if (!s_policy.count(std::to_string(t) + ":" + nm + ":" + kinds[kind])) return;
+  s_parked_at[t] = true;
+  s_where[t] = nm + ":" + kinds[kind];
   s_cv.notify_all();
-  s_cv.wait(l, [] { return s_go; });
-  s_go = false;
-  s_parked = false;
+  s_cv.wait(l, [t] { return s_go_t[t]; });
+  s_go_t[t] = false;
+  s_parked_at[t] = false;
 }
 
 // --- a logging thread that executes commands (X: logical thread 0, Y: logical thread 2)
@@ -208,9 +224,34 @@ int main(int argc, char** argv)
   auto emit = [](std::string const& s) { std::lock_guard<std::recursive_mutex> lk(shim::g_mx); shim::g_out << s << "\n"; shim::g_out.flush(); };
 
   VLogger* logger = nullptr;
-  static Worker X, Y;
+  static Worker X, Y, Z[2];
   X.logical = 0; X.tag = 'X';
   Y.logical = 2; Y.tag = 'Y';
+  Z[0].logical = 3; Z[0].tag = 'Z';
+  Z[1].logical = 4; Z[1].tag = 'Z';
+  auto cache_size = [] { return quill::detail::BackendManager::instance()._backend_worker._active_thread_contexts_cache.size(); };
+  auto state_json = [&](int t)
+  {
+    std::string w;
+    bool parked;
+    { std::lock_guard<std::mutex> l(s_mx); parked = s_parked_at[t]; w = parked ? s_where[t] : std::string{}; }
+    return "\"t\":" + std::to_string(t) + ",\"at\":\"" + w + "\",\"cache\":" + std::to_string(cache_size()) + ",\"delivered\":" +
+      std::to_string(g_delivered.load());
+  };
+  auto wait_thread = [&](int t)
+  {
+    // until logical thread t is parked, or (a worker) its command has completed, or (the backend) stop() has returned
+    Worker* w = t == 0 ? &X : t == 2 ? &Y : t >= 3 ? &Z[t - 3] : nullptr;
+    while (true)
+    {
+      {
+        std::unique_lock<std::mutex> l(s_mx);
+        if ((s_parked_at[t] && !s_go_t[t]) || (t == 1 && s_stop_done)) return;
+      }
+      if (w) { std::lock_guard<std::mutex> l(w->mx); if (w->ack) { std::lock_guard<std::mutex> l2(s_mx); if (!s_parked_at[t]) return; } }
+      std::this_thread::sleep_for(std::chrono::microseconds{20});
+    }
+  };
   std::string line;
   while (std::getline(in, line))
   {
@@ -242,10 +283,11 @@ int main(int argc, char** argv)
         shim::g_names[&bw._is_worker_running] = "R";
         shim::g_names[&qx._atomic_writer_pos] = "W";
         shim::g_names[&qy._atomic_writer_pos] = "WY";
-        shim::g_names[&Y.ctx->_valid] = "V";        // named for its memory orders only: never scripted, reads the newest message
+        shim::g_names[&Y.ctx->_valid] = "V";
+        shim::g_names[&quill::detail::ThreadContextManager::instance()._new_thread_context_flag] = "F";        // named for its memory orders only: never scripted, reads the newest message
       }
       // arm: from now on B parks at the head of its loop
-      { std::lock_guard<std::mutex> l(s_mx); s_armed = true; }
+      { std::lock_guard<std::mutex> l(s_mx); s_armed = true; s_policy = {"1:R:load"}; }
       { std::unique_lock<std::mutex> l(s_mx); s_cv.wait(l, [] { return s_parked; }); }
       // baseline: the named objects start with one message each, known to everybody
       {
@@ -262,6 +304,7 @@ int main(int argc, char** argv)
         collapse(bw._is_worker_running);
         collapse(qx._atomic_writer_pos);
         collapse(qy._atomic_writer_pos);
+        collapse(quill::detail::ThreadContextManager::instance()._new_thread_context_flag);
         g_wclk = shim::Clock{};
       }
       g_delivered.store(0);
@@ -357,6 +400,68 @@ int main(int argc, char** argv)
       if (fin)
         emit("{\"e\":\"stopped\",\"delivered\":" + std::to_string(g_delivered.load() - g_delivered_y.load()) + ",\"delivered_y\":" +
              std::to_string(g_delivered_y.load()) + ",\"committed\":" + std::to_string(X.committed) + "}");
+    }
+    else if (c == "policy")
+    {
+      std::lock_guard<std::mutex> l(s_mx);
+      s_policy.clear();
+      std::string k;
+      while (ss >> k) s_policy.insert(k);
+    }
+    else if (c == "Z1" || c == "Z2")
+    {
+      Worker& z = Z[c == "Z1" ? 0 : 1];
+      ss >> op;
+      if (op == "start") z.start(logger);
+      else if (op == "log")
+      {
+        z.post(2);
+        wait_thread(z.logical);
+        emit("{\"e\":\"zcall\"," + state_json(z.logical) + "}");
+      }
+    }
+    else if (c == "S")
+    {
+      int t = 1;
+      long idx = 0;
+      ss >> t >> idx;
+      bool parked;
+      std::string where;
+      { std::lock_guard<std::mutex> l(s_mx); parked = s_parked_at[t]; where = s_where[t]; }
+      if (!parked) { emit("{\"e\":\"sstep\",\"t\":" + std::to_string(t) + ",\"skipped\":true}"); continue; }
+      {
+        std::lock_guard<std::recursive_mutex> lk(shim::g_mx);
+        shim::g_choices.clear();
+        if (where.size() > 5 && where.substr(where.size() - 5) == ":load") shim::g_choices[where.substr(0, where.size() - 5)].push_back(idx);
+        shim::g_sticky.clear();
+      }
+      { std::lock_guard<std::mutex> l(s_mx); s_go_t[t] = true; }
+      s_cv.notify_all();
+      wait_thread(t);
+      emit("{\"e\":\"sstep\",\"was\":\"" + where + "\"," + state_json(t) + "}");
+    }
+    else if (c == "drain")
+    {
+      long n = 8;
+      ss >> n;
+      {
+        std::lock_guard<std::mutex> l(s_mx);
+        s_policy.clear();
+        for (int t = 0; t < shim::NT; ++t) if (s_parked_at[t]) s_go_t[t] = true;
+      }
+      { std::lock_guard<std::recursive_mutex> lk(shim::g_mx); shim::g_choices.clear(); shim::g_sticky.clear(); }
+      s_cv.notify_all();
+      // first the logging threads complete their calls, THEN the backend gets n full loop iterations
+      for (auto& z : Z) if (z.th.joinable()) z.wait();
+      {
+        std::unique_lock<std::mutex> l(s_mx);
+        long const r0 = s_rloads;
+        s_cv.wait(l, [&] { return s_rloads >= r0 + n; });
+        s_policy = {"1:R:load"};
+      }
+      { std::unique_lock<std::mutex> l(s_mx); s_cv.wait(l, [] { return s_parked_at[1]; }); }      // parked again: its state can be read
+      emit("{\"e\":\"quiet\",\"cache\":" + std::to_string(cache_size()) + ",\"delivered\":" + std::to_string(g_delivered.load()) +
+           ",\"zlogged\":" + std::to_string(Z[0].committed + Z[1].committed) + "}");
     }
     else if (c == "end") break;
   }
